@@ -66,3 +66,6 @@ vmod!(c20);
 #[cfg(not(feature = "shuttle"))]
 #[cfg(descriptive_gate)]
 vmod!(c07);
+#[cfg(not(feature = "shuttle"))]
+#[cfg(descriptive_gate)]
+vmod!(c18);
